@@ -726,7 +726,7 @@ func fix128BigIntToFix64(
 		panic(&UnderflowError{})
 	}
 
-	bigInt = bigInt.Div(bigInt, fixedpoint.Fix64ToFix128FactorAsBigInt)
+	bigInt = bigInt.Quo(bigInt, fixedpoint.Fix64ToFix128FactorAsBigInt)
 	return NewFix64Value(
 		memoryGauge,
 		func() int64 {
